@@ -189,7 +189,8 @@ _POOL = None
 
 
 def _pool():
-    """real packets: encode_usb of messages decoded from canboat-style lines; all decode back to a message"""
+    """real packets: encode_usb of messages decoded from canboat-style lines (single-frame PGNs 127250 and 59904, which
+    decode_usb turns back into a message on the unchanged tree)"""
     global _POOL
     if _POOL is not None:
         return _POOL
@@ -204,16 +205,17 @@ def _pool():
     out, seen = [], set()
 
     def add(ln, want_last=None):
+        """the packet's first 19 bytes come from the library's encoder; the checksum byte is computed HERE from the
+        property's definition, so that 'valid packet' does not depend on the library's checksum function"""
         try:
             m = dec.decode_basic_string(ln, True)
             for p in enc.encode_usb(m):
-                p = bytes(p)
+                p = bytes(p[:19]) + bytes([sum(p[2:19]) % 256])
                 if want_last is not None and p[19] != want_last:
                     return False
-                r = NMEA2000Decoder().decode_usb(p)
-                if r is not None and r.PGN == m.PGN and r.source == m.source and p not in seen and _valid(p):
+                if len(p) == 20 and p[:2] == MARK and p not in seen:
                     seen.add(p)
-                    out.append((p, (r.PGN, r.source)))
+                    out.append((p, (m.PGN, m.source)))
                     return True
         except Exception:  # noqa: BLE001
             pass
@@ -516,6 +518,24 @@ def correspond(ctx):
         else:
             ctx.notes.append("the disagreeing sessions do not all agree with the pinned loop either (%d of %d do not)"
                              % (len(r0["failing"]), len(sub)))
+    reports.append(r)
+
+    # --- the oracle of the search demands exactly what C20_stream's `must_cut` demands (so the search asks for
+    #     nothing the theorems do not state, and nothing less)
+    seen, mc, mraw = set(), [], []
+    for segs, _ in sess:
+        key = tuple(segs)
+        if key in seen:
+            continue
+        seen.add(key)
+        req, _, _ = _required(segs)
+        mraw.append(segs)
+        mc.append(ctuple(clist(ctuple(cbool(t in ("P", "V", "C") and len(b) == 20 and b[:2] == MARK), _packed(b)) for t, b in segs),
+                         clist(_packed(b) for b in req)))
+    r = run_cases("C20", "must", IMPORTS, "list (bool * (Z * Z)) * list (Z * Z)", "chk_must", mc, shard=max(1, -(-len(mc) // 4)))
+    r.update(name="search oracle vs must_cut (statement of C20_stream)", distinct_nontrivial=len(mc),
+             failing_cases=[{"segs": [[t, b.hex()] for t, b in mraw[k]]} for k in r["failing"][:20]],
+             samples=[{"segs": [[t, b.hex()] for t, b in mraw[-1]][:8]}])
     reports.append(r)
 
     # --- decode_usb's acceptance test, called directly
